@@ -185,9 +185,34 @@ def other_messages(rnd: random.Random) -> t.List[t.Any]:
     return out
 
 
+def many_messages(rnd: random.Random) -> t.List[t.Any]:
+    """Messages with MANY elements in every SEQUENCE OF / SET OF (the random generator stops at three): counts on both
+    sides of 127/128 and 255/256, total sizes beyond the one- and two-octet length forms."""
+    import sansldap as s
+    import sansldap._messages as M
+
+    out: t.List[t.Any] = []
+    ok = M.LDAPResult(M.LDAPResultCode(0), "", "", None)
+    for n in (4, 17, 127, 128, 129, 255, 256, 300):
+        names = [f"a{j}" for j in range(n)]
+        ctl = [s.LDAPControl(f"1.2.{j}", j % 2 == 0, None if j % 3 == 0 else bytes([j % 256])) for j in range(n)]
+        out.append(M.SearchRequest(1, [], "dc=x", M.SearchScope.SUBTREE, M.DereferencingPolicy.NEVER, 0, 0, False, s.FilterPresent("cn"), names))
+        out.append(M.SearchRequest(2, ctl, "dc=x", M.SearchScope.BASE, M.DereferencingPolicy.ALWAYS, n, n, True,
+                                   s.FilterAnd([s.FilterEquality(a, bytes([j % 256])) for j, a in enumerate(names)]), []))
+        out.append(M.SearchRequest(3, [], "", M.SearchScope.ONE_LEVEL, M.DereferencingPolicy.NEVER, 0, 0, False,
+                                   s.FilterOr([s.FilterSubstrings("cn", None, [bytes([65 + j % 26]) for j in range(n)], None), s.FilterNot(s.FilterPresent("x"))]), ["*"]))
+        out.append(M.SearchResultEntry(4, [], "cn=x", [M.PartialAttribute(a, [b"v"]) for a in names]))
+        out.append(M.SearchResultEntry(5, ctl[:3], "cn=y", [M.PartialAttribute("member", [f"cn=u{j},dc=x".encode() for j in range(n)])]))
+        out.append(M.SearchResultReference(6, [], [f"ldap://h{j}/dc=x" for j in range(n)]))
+        out.append(M.SearchResultDone(7, [], M.LDAPResult(M.LDAPResultCode(10), "", "", [f"ldap://h{j}/" for j in range(n)])))
+        out.append(M.ExtendedResponse(8, ctl, ok, "1.2.3", bytes(n)))
+    rnd.shuffle(out)
+    return out
+
+
 def trace_part(rep: C.Report, wd: str, tier: str, rnd: random.Random, extra_msgs: t.Sequence[t.Any] = ()) -> None:
     n = 2500 if tier == "quick" else 40000
-    msgs = list(extra_msgs) + other_messages(rnd) + [msggen.r_message(rnd) for _ in range(n)]
+    msgs = list(extra_msgs) + other_messages(rnd) + many_messages(rnd) + [msggen.r_message(rnd) for _ in range(n)]
     events = []
     for m in msgs:
         if C.too_many_hangs():
